@@ -82,9 +82,9 @@ Lemma timer_dead_peer : forall c snd tgt msgs hb sr i q,
   s_st s' = SLatent /\ In CbOnLogout (s_cbs s') /\ s_closed s' = true /\ s_out_open s' = false /\ s_wire s' = [].
 Proof.
   intros c. crush_cfg c. intros snd tgt msgs hb sr i q Hl Hc.
-  unfold step, clear_logs, mk, step_event, set_state, set_state_with, handle_disconnect_state.
-  cbn [state_timeout s_st upd_chan upd_logs is_connected is_logged_on negb]. rewrite Hc, Hl.
-  destruct r3; cbn; auto 10.
+  unfold step, clear_logs, mk, step_event, set_state, set_state_with, handle_disconnect_state, drain.
+  cbn [state_timeout s_st upd_chan upd_logs is_connected is_logged_on negb s_in_buf length drain_message_in s_in_open].
+  rewrite Hc, Hl. cbn [andb negb]. destruct r3; cbn; auto 10.
 Qed.
 
 (* ---------- verification outcomes ---------- *)
@@ -251,8 +251,8 @@ Lemma disconnect_keeps_store : forall c st snd tgt msgs q hb sr,
   s_snd s' = snd /\ s_tgt s' = tgt /\ s_msgs s' = msgs /\ s_st s' = SLatent /\ ~ In CbStoreReset (s_cbs s').
 Proof.
   intros c. crush_cfg c. intros st snd tgt msgs q hb sr Hc Hr. cbn in Hr. subst r3.
-  unfold step, clear_logs, mk, step_event, set_state, set_state_with, handle_disconnect_state.
-  cbn [s_st upd_chan upd_logs is_connected negb]. rewrite Hc. cbn [negb is_connected].
+  unfold step, clear_logs, mk, step_event, set_state, set_state_with, handle_disconnect_state, drain.
+  cbn [s_st upd_chan upd_logs is_connected negb s_in_buf length drain_message_in s_in_open]. rewrite Hc. cbn [negb is_connected andb].
   destruct (is_logged_on st || match st with SLogout => true | SLogon => initiator _ | _ => false end); cbn;
     repeat split; try reflexivity; intro H; cbn in H; intuition congruence.
 Qed.
@@ -264,8 +264,8 @@ Lemma disconnect_resets_store : forall c st snd tgt msgs q hb sr,
   s_snd s' = 1 /\ s_tgt s' = 1 /\ s_msgs s' = [] /\ In CbStoreReset (s_cbs s').
 Proof.
   intros c. crush_cfg c. intros st snd tgt msgs q hb sr Hc Hr. cbn in Hr. subst r3.
-  unfold step, clear_logs, mk, step_event, set_state, set_state_with, handle_disconnect_state.
-  cbn [s_st upd_chan upd_logs is_connected negb]. rewrite Hc. cbn [negb is_connected].
+  unfold step, clear_logs, mk, step_event, set_state, set_state_with, handle_disconnect_state, drain.
+  cbn [s_st upd_chan upd_logs is_connected negb s_in_buf length drain_message_in s_in_open]. rewrite Hc. cbn [negb is_connected andb].
   destruct (is_logged_on st || match st with SLogout => true | SLogon => initiator _ | _ => false end); cbn; auto 8.
 Qed.
 
